@@ -60,6 +60,8 @@ template<int D> bool next_tuple(long const* ext, long* t) {
 enum Kind { K_ARRAY, K_REF, K_VIEW, K_TRANSPOSED, K_ROTATED, K_PADDED, K_STRIDED, K_LONG, K_CVIEW, NKINDS };
 inline char const* const kind_name[] = {"array", "array_ref", "A()", "transposed-storage", "rotated-storage", "padded-block", "strided(2)", "array<long>", "const-A()"};
 
+template<class T> std::pair<T*, long>& last_parent() { static std::pair<T*, long> p{nullptr, 0}; return p; }
+
 template<int D, class S, std::size_t... I>
 decltype(auto) block_of(S& s, long const* e, std::index_sequence<I...>) { return s(multi::irange{1, 1 + e[I]}...); }
 
@@ -72,6 +74,7 @@ void with_operand(Val const& a, int kind, F&& f_) {
 	auto fillmap = [&](auto& S, auto&& map, T pad) {
 		long n = 1; for(int k = 0; k < D; ++k) { n *= se[k]; }
 		auto* p = S.data_elements();
+		last_parent<T>() = {p, n};  // lets a callback inspect the whole parent storage (guard cells around the view)
 		for(long i = 0; i < n; ++i) { p[i] = pad; }
 		if(a.n() == 0) { return; }
 		long t[D] = {}; long st[D]; long idx = 0;
